@@ -57,7 +57,8 @@ ValidCfg(c) ==
     /\ c.od >= 1 /\ c.kh >= 1 /\ c.kw >= 1 /\ c.id >= 1
     /\ c.trav \in {"depth", "part", "dw"} /\ c.bits \in {8, 16}
     /\ c.dily \in {1, 2} /\ c.dilx \in {1, 2}
-    /\ c.oblk >= 1 /\ c.oblk % c.oub = 0            \* block depth is a whole number of OFM ublocks
+    /\ c.oblk >= 1
+    /\ (c.oblk % c.oub = 0 \/ c.od <= c.oblk)   \* whole OFM ublocks per block, or a single (clipped) block
     /\ (c.trav = "dw" => c.id = 1)
 
 Order(c) ==
